@@ -433,6 +433,89 @@ def r3b_whole_table_writes(ctx):
                             'constructors alone make 5)' % n)
 
 
+CODEC = [('Packet', ('decode', 'encode', 'add_attachment',
+                     'reconstruct_binary', '_reconstruct_binary_internal',
+                     'deconstruct_binary', '_deconstruct_binary_internal',
+                     '_data_is_binary')),
+         ('MsgPackPacket', ('decode', 'encode'))]
+
+
+def r7_codec_stateless(ctx):
+    """decoding one client's frame must not depend on, or leave traces in,
+    state shared with other clients: the codec functions call no method of a
+    module-level object (other than imported modules, classes and
+    functions), declare no `global`, and write no class attribute."""
+    m = ctx.model
+    from ..sym import with_new_helpers
+    n = 0
+    for cname, fnames in CODEC:
+        cls = m.cls(cname)
+        mod = cls.module
+        shared = {}
+        for st in mod.tree.body:
+            if isinstance(st, (ast.Assign, ast.AnnAssign)):
+                v = st.value
+                tg = st.targets if isinstance(st, ast.Assign) else [st.target]
+                mutable = isinstance(v, (ast.Call, ast.List, ast.Dict,
+                                         ast.Set, ast.ListComp, ast.DictComp,
+                                         ast.SetComp))
+                for t in tg:
+                    for x in ast.walk(t):
+                        if isinstance(x, ast.Name) and mutable:
+                            shared[x.id] = st
+        for fname in fnames:
+            f = m.lookup(cls, fname)
+            if f is None or f.cls is not cls and cname != 'Packet' and \
+                    f.cls.name != cname:
+                continue
+            for g in with_new_helpers(m, f):
+                n += 1
+                construct = g.qualname
+                bad = []
+                for node in walk_own(g.node):
+                    if isinstance(node, ast.Global):
+                        bad.append((node, 'declares global %s'
+                                    % ', '.join(node.names)))
+                    if isinstance(node, ast.Call) and \
+                            isinstance(node.func, ast.Attribute):
+                        root = node.func.value
+                        while isinstance(root, (ast.Attribute,
+                                                ast.Subscript)):
+                            root = root.value
+                        if isinstance(root, ast.Name) and \
+                                root.id in shared and \
+                                root.id not in g.params:
+                            bad.append((node, 'calls %s on the module-level '
+                                        'object %s' % (node.func.attr,
+                                                       root.id)))
+                    if isinstance(node, (ast.Assign, ast.AugAssign)):
+                        tg = node.targets if isinstance(node, ast.Assign) \
+                            else [node.target]
+                        for t in tg:
+                            while isinstance(t, ast.Subscript):
+                                t = t.value
+                            if isinstance(t, ast.Attribute) and \
+                                    U(t.value) in (cname, 'self.__class__',
+                                                   'type(self)', 'cls'):
+                                bad.append((node, 'writes the class '
+                                            'attribute %s' % U(t)))
+                            if isinstance(t, ast.Name) and t.id in shared \
+                                    and isinstance(node, ast.AugAssign):
+                                bad.append((node, 'updates module-level %s'
+                                            % t.id))
+                for node, what in bad:
+                    ctx.bad(construct, 'codec-shared-state ' + what,
+                            'the codec %s: state shared by every connection '
+                            'of the process - one client\'s (malformed) '
+                            'frame changes how the next client\'s frame is '
+                            'decoded' % what, where(g, node))
+                if not bad:
+                    ctx.ok(construct, 'codec function keeps no state '
+                           'outside the packet object', where(g))
+    if n < 8:
+        raise AnalysisError('C12.R7: only %d codec functions found' % n)
+
+
 def r6_answers(ctx, fam):
     m = ctx.model
     S = SERVER[fam]
@@ -487,6 +570,10 @@ def run(ctx):
              'must be refused) (shared rule)', floor=5)
     from .c04 import r6_manager
     r6_manager(ctx)
+    ctx.rule('C12.R7', 'the codec keeps no state outside the packet object '
+             '(no shared decoder, no globals, no class-attribute writes)',
+             floor=8)
+    r7_codec_stateless(ctx)
     ctx.rule('C12.R6', 'answers of the message path go to the sender\'s '
              'own transport', floor=8)
     for fam in SA:
